@@ -1476,7 +1476,14 @@ pub fn parse_group_graph_pattern(input: &str) -> IResult<&str, GroupGraphPattern
         if let Some(remaining) = input.strip_prefix('}') {
             let pattern = match joined.len() {
                 0 => GroupGraphPattern::Unit,
-                1 => joined.pop().expect("one graph pattern"),
+                // a lone FILTER / BIND keeps its group: its scope is observable
+                1 if !matches!(
+                    joined[0],
+                    GroupGraphPattern::Filter(_) | GroupGraphPattern::Bind(_)
+                ) =>
+                {
+                    joined.pop().expect("one graph pattern")
+                }
                 _ => GroupGraphPattern::Join(joined),
             };
             return Ok((remaining, pattern));
